@@ -208,16 +208,43 @@ def lit_obj(l):
     return ''.join(chr(c) for c in l[1])
 
 
+def _compound_fwd(text):
+    """a forward reference whose text is an EXPRESSION of the small grammar  e ::= NAME | Optional[e] | List[e] | Dict[str, e]  (NAME a
+    name of the context, int or str): the library evaluates the text in the context of the call and goes on with the typing object
+    it gets, so the term is the term of that expression with the names left as forward references (they are resolved in the same
+    context).  Anything else: None (the reference stays an opaque name)"""
+    import ast
+    try:
+        tree = ast.parse(text, mode='eval').body
+    except SyntaxError:
+        return None
+    def go(n):
+        if isinstance(n, ast.Name):
+            if n.id in CTX: return ["fwd", nid(n.id)]
+            if n.id in ('int', 'str'): return cls_term({'int': int, 'str': str}[n.id])
+            return None
+        if isinstance(n, ast.Subscript) and isinstance(n.value, ast.Name):
+            if n.value.id in ('Optional', 'List'):
+                a = go(n.slice)
+                if a is None: return None
+                return ["union", "optional", [a, ["cls", IDX[NoneType]]]] if n.value.id == 'Optional' else ["seq", "typing", "list", a]
+            if n.value.id == 'Dict' and isinstance(n.slice, ast.Tuple) and len(n.slice.elts) == 2:
+                a, b = go(n.slice.elts[0]), go(n.slice.elts[1])
+                return None if a is None or b is None else ["map", "typing", "dict", a, b]
+        return None
+    return None if isinstance(tree, ast.Name) else go(tree)
+
+
 def reflect_ann(o, nested=False):
     """derive the term from the object Python actually built (appendix F of DESIGN.md: what the checker's introspection sees)"""
     if o is None:
         return ["none"] if not nested else ["cls", IDX[NoneType]]
     if isinstance(o, str):
-        return ["str", nid(o)] if not nested else ["fwd", nid(o)]
+        return ["str", nid(o)] if not nested else (_compound_fwd(o) or ["fwd", nid(o)])
     if o is Any:
         return ["any"]
     if isinstance(o, ForwardRef):
-        return ["fwd", nid(o.__forward_arg__)]
+        return _compound_fwd(o.__forward_arg__) or ["fwd", nid(o.__forward_arg__)]
     if isinstance(o, typing.NewType):
         st = o.__supertype__
         return ["newtype", IDX[st]] if st in IDX else ["special", 0]
